@@ -44,6 +44,7 @@ func runC05(c *Ctx) {
 	// a goroutine that writes the response is gone (or has nothing left to write) when the transport returns (C12)
 	c12WriterGoroutineBounded(c)
 	layoutAgreement(c)
+	genRound2(c)
 	c11ExitCloses(c)
 	c11TerminalFrame(c)
 	c11Round2(c)
